@@ -941,6 +941,37 @@ async fn s_stream_same_id(h: &mut Host) -> Result<(), Fail> {
     Ok(())
 }
 
+/// C17 "a rejected request changes no state", on a StreamingPull control message: one message carries a valid ack of
+/// a live delivery together with a malformed ack id (or a negative value) in its deadline-modification lists. It is
+/// rejected with INVALID_ARGUMENT; the acknowledgement it carried must not have been applied.
+async fn s_stream_reject_atomic(h: &mut Host) -> Result<(), Fail> {
+    for (k, (bad_id, bad_secs)) in [("not-an-ack-id", 10), ("LIVE2", -1)].into_iter().enumerate() {
+        let (t, s) = (format!("projects/p/topics/sra{}", k), format!("projects/p/subscriptions/sra{}", k));
+        h.topic(&t).await.map_err(c10("CreateTopic of an absent, well-formed name"))?;
+        h.sub(&s, &t, 0, None).await.map_err(c10("CreateSubscription of an absent name on an existing topic of the same project"))?;
+        h.publish(&t, (1..=2u8).map(|i| (vec![i], HashMap::new())).collect()).await.map_err(setup("publish"))?;
+        let held = h.pull(&s, 10, true).await.map_err(setup("pull"))?;
+        if held.len() != 2 { return Err(f("SETUP", format!("expected 2 messages, got {}", held.len()))); }
+        let bad_id = if bad_id == "LIVE2" { held[1].ack_id.clone() } else { bad_id.to_string() };
+        let first = StreamingPullRequest { subscription: s.to_string(), ack_ids: vec![], modify_deadline_seconds: vec![], modify_deadline_ack_ids: vec![], stream_ack_deadline_seconds: 0, client_id: "c".into(), max_outstanding_messages: 10, max_outstanding_bytes: 0 };
+        let ctl = StreamingPullRequest { subscription: String::new(), ack_ids: vec![held[0].ack_id.clone()], modify_deadline_seconds: vec![bad_secs], modify_deadline_ack_ids: vec![bad_id.clone()], stream_ack_deadline_seconds: 0, client_id: String::new(), max_outstanding_messages: 0, max_outstanding_bytes: 0 };
+        let mut inbound = h.subscriber.streaming_pull(async_stream::stream! { yield first; yield ctl; futures::future::pending::<()>().await; }).await.map_err(setup("streaming_pull"))?.into_inner();
+        match tokio::time::timeout(Duration::from_secs(5), inbound.message()).await {
+            Ok(Err(e)) if e.code() == Code::InvalidArgument => {}
+            Ok(Err(e)) => return Err(f("C17+C05", format!("a control message with the modification ({:?}, {} s) ended the stream with {:?} instead of INVALID_ARGUMENT", bad_id, bad_secs, e.code()))),
+            _ => return Err(f("C17+C05", format!("a control message with the modification ({:?}, {} s) was not rejected with INVALID_ARGUMENT", bad_id, bad_secs))),
+        }
+        drop(inbound);
+        // both deliveries are still outstanding: they come back after the 10 s lease, and only then
+        if !h.pull(&s, 10, true).await.map_err(setup("pull"))?.is_empty() { return Err(f("C17+C05", "a rejected control message put a delivery back into the queue".into())); }
+        jump(Duration::from_secs(12)).await;
+        let back = h.pull(&s, 10, true).await.map_err(setup("pull"))?;
+        let datas: Vec<u8> = back.iter().map(|m| m.message.as_ref().map(|x| x.data[0]).unwrap_or(0)).collect();
+        if !datas.contains(&1) { return Err(f("C17", format!("a StreamingPull control message [ack of delivery 1; modification ({:?}, {} s)] was rejected with INVALID_ARGUMENT, yet its acknowledgement was applied: after the lease only the messages {:?} came back (a rejected request changes no state)", bad_id, bad_secs, datas))); }
+    }
+    Ok(())
+}
+
 /// C15: a unary Pull parked on an empty subscription does not turn into an empty OK response when the subscription
 /// is deleted under it (it fails, or keeps waiting for its limit)
 async fn s_pull_wait_delete(h: &mut Host) -> Result<(), Fail> {
@@ -1172,6 +1203,7 @@ pub fn run_all() -> i32 {
         ("push_lifecycle", |h| Box::pin(s_push_lifecycle(h))),
         ("recreate_race", |h| Box::pin(s_recreate_race(h))),
         ("stream_same_id", |h| Box::pin(s_stream_same_id(h))),
+        ("stream_reject_atomic", |h| Box::pin(s_stream_reject_atomic(h))),
         ("pull_wait_delete", |h| Box::pin(s_pull_wait_delete(h))),
         ("push_status", |h| Box::pin(s_push_status(h))),
     ];
